@@ -5,6 +5,7 @@ pub mod c07;
 pub mod c13;
 pub mod c14;
 pub mod c15;
+pub mod c17;
 pub mod c18;
 
 pub fn worker_main() {
@@ -12,6 +13,7 @@ pub fn worker_main() {
     crate::worker::serve(|req, io| match req["op"].as_str() {
         Some("c13") => c13::worker_c13(req, io),
         Some("c15") => c15::worker_c15(req, io),
+        Some("c17") => c17::worker_c17(req, io),
         Some("ping") => serde_json::json!({"pong": true}),
         other => serde_json::json!({"error": format!("unknown op {other:?}")}),
     });
@@ -24,6 +26,7 @@ macro_rules! table {
             "C13" => $f(&c13::C13, $arg),
             "C14" => $f(&c14::C14, $arg),
             "C15" => $f(&c15::C15, $arg),
+            "C17" => $f(&c17::C17, $arg),
             "C18" => $f(&c18::C18, $arg),
             other => {
                 eprintln!("unknown property {other}");
